@@ -12,6 +12,8 @@ def run(rep, kf, tier, seed):
         rep.merge(r)
     import contracts.removal as crm
     import contracts.body_refs as cbr
+    import contracts.registration as creg
+    engine_b.discharge(rep, kf, [creg.model_build_contract()], "C08", tier, seed)
     import contracts.model_plumbing as cmp_
     engine_b.discharge(rep, kf, cmp_.all_contracts(), "C08", tier, seed)
     import contracts.fixpoints as cfp
